@@ -384,7 +384,7 @@ let () =
          match List.filter (fun x -> x <> "") (split ' ' line) with
          | ["E"; maxlen; dirs; alpha] ->
            let maxlen = int_of_string maxlen in
-           let alpha = Array.of_list (List.map (fun h -> int_of_string ("0x" ^ h)) (split ',' alpha)) in
+           let alpha = Array.of_list (List.map (fun tok -> List.map (fun h -> int_of_string ("0x" ^ h)) (split '+' tok)) (split ',' alpha)) in
            let n = Array.length alpha in
            for len = 1 to maxlen do
              let total = int_of_float (float_of_int n ** float_of_int len) in
@@ -392,7 +392,7 @@ let () =
                incr counter;
                if !counter mod nshards = shard then begin
                  let c = ref code in
-                 let cps = List.init len (fun _ -> let x = alpha.(!c mod n) in c := !c / n; x) in
+                 let cps = List.concat (List.init len (fun _ -> let x = alpha.(!c mod n) in c := !c / n; x)) in
                  let text = List.map n_of_int cps in
                  for di = 0 to String.length dirs - 1 do
                    let d = dirs.[di] in
